@@ -12,6 +12,18 @@ TEXT = {
          "all single-byte edits of every canonical token, URIs over the 9-symbol alphabet) on both and diffing; Rust-side oracles state the property directly.",
          "Trusted: Lean kernel (axioms ⊆ propext, Classical.choice, Quot.sound), the hand translation of common/mod.rs, headers.rs::MediaType, response.rs::StatusCode, "
          "request.rs::Uri::get_abs_path (checked by the differential run, exhaustive on the bounded spaces named in the quantifier), std's trim/from_utf8 as modelled."),
+ "C01": ("Refinement theorem: one try_read of the code-level model equals running a byte-at-a-time automaton (no buffer, no cursors, no notion of read) over exactly the bytes taken "
+         "(tryRead_refines, by induction on the parse loop with all slices/unwraps discharged), lifted to every read schedule over every byte stream (sched_refines) and to "
+         "schedule_independent: any two schedules that read the whole stream or reach an error deliver the same requests (all fields, order, once), queue the same 100-continues and report the same first error. "
+         "No bound on stream length, number of reads or cut positions. Correspondence: >700k ops per quick run over grammar-derived/boundary-aimed/corrupted streams x 6-12 schedules, each compared op by op with the compiled model, "
+         "plus two oracles on the implementation alone: equal summaries across schedules, and summary = spec automaton on the whole stream.",
+         "Trusted: Lean kernel; hand model of connection.rs (buffer abstracted to win = buffer[0..read_cursor), shift_buffer_left by its closed form) checked by the differential run; "
+         "the scripted stream stands for the kernel (E2). Timing/thread interleaving are not exhibited (the connection is single-threaded)."),
+ "C03": ("Theorems: the connection invariant Inv holds initially and is preserved by try_read on ANY recv result (data of any content/length, EOF, any errno), try_write on any write result, enqueue, pop, clear — "
+         "and no such call ends in a panic outcome (every slice, unwrap, drain, subtraction of the Rust code is a checked operation in the model; fuel exhaustion is a panic outcome, so termination of the loop is part of the theorem); "
+         "ops_safe lifts this to every sequence of public calls incl. continued use after ParseError/StreamReadError/ConnectionClosed. oneShot_no_panic and requestLine_no_panic: the one-shot parser never panics "
+         "(headers_end - 2 cannot underflow). Header/media/encoding/method/version parsers and get_abs_path are total functions in the model (no checked operation inside). Correspondence + catch_unwind + per-call syscall counters on the implementation.",
+         "Trusted: Lean kernel; hand model (checked differentially); std internals and the allocator are outside the model; 'cannot block' is reduced to 'at most one recv / one write per call on a non-blocking stream' and counted on the implementation."),
 }
 TECH = "Lean 4 theorems over a hand-written model + differential correspondence check (Rust harness vs compiled Lean driver)"
 
